@@ -323,6 +323,9 @@ func (s *Solver) Solve(obs []*Obligation, thorough bool, timeout int, jobs int) 
 	var wg sync.WaitGroup
 	sem := make(chan struct{}, jobs)
 	for i, ob := range obs {
+		if ob.Result != "" || ob.vc == nil {
+			continue // decided by a non-SMT back end
+		}
 		wg.Add(1)
 		go func(i int, ob *Obligation) {
 			defer wg.Done()
